@@ -169,8 +169,11 @@ pub fn build_entries(c: &Case) -> Result<Vec<SEntry>, Fail> {
     if c.codec == 1 {
         let es = steer_none(c.seed, c.target as usize);
         let got = directory::encode(&es, true).len();
-        if c.target > 4 && got != c.target as usize {
-            return Err(Fail::new("C06/harness", format!("size steering missed: wanted {} bytes, built {got}", c.target)));
+        // a handful of tiny sizes cannot be hit exactly (e.g. 12 = count + two 4-byte entries + three widenings);
+        // they are nowhere near the budget, so the list is used as it is. A miss at a relevant size is a defect of
+        // this generator, not of the library: inconclusive, never a violation.
+        if c.target >= 64 && got != c.target as usize {
+            return Err(Fail::new("C06/INFRA/size-steering", format!("size steering missed: wanted {} bytes, built {got}", c.target)));
         }
         Ok(es)
     } else {
@@ -225,7 +228,7 @@ pub fn check_split(r: &[u8], s: &[u8], all: &[SEntry], c: u8, a: bool) -> Result
 
 fn check(c: &Case) -> CaseResult {
     let all = build_entries(c)?;
-    directory::valid(&all).map_err(|e| Fail::new("C06/harness", format!("steering produced an invalid list: {e}")))?;
+    directory::valid(&all).map_err(|e| Fail::new("C06/INFRA/harness-self-check", format!("steering produced an invalid list: {e}")))?;
     let lib_entries: Vec<pmtiles2::Entry> = all.iter().map(|e| pmtiles2::Entry { tile_id: e.id, offset: e.off, length: e.len, run_length: e.run }).collect();
     // (the two largest u32 recipes stand for the two largest usize values)
     let strat = Some(WriteDirsOverflowStrategy::OnlyLeafPointers {
@@ -398,5 +401,19 @@ pub fn replay(sub: &str, case: &Value) -> Option<CaseResult> {
         "steered-lists" | "lists-by-count" | "budget-edges-every-codec" | "compressible-and-tiny-leaf-lists" => Some(check(&super::de(case)?)),
         "whole-archive-writes" => Some(check_archive(&super::de(case)?)),
         _ => None,
+    }
+}
+
+#[cfg(test)]
+mod steer_tests {
+    #[test]
+    fn steer_none_hits_every_size_from_64() {
+        for seed in 0..6u64 {
+            for target in 64usize..20_000 {
+                let es = super::steer_none(seed * 7919 + 1, target);
+                let got = crate::spec::directory::encode(&es, true).len();
+                assert_eq!(got, target, "seed {seed}");
+            }
+        }
     }
 }
